@@ -8,6 +8,8 @@ A history is a list of operations on a growing store of objects (ids = order of 
     v:<o>:<key>           objs[o][int | slice]                          -> a view (shares memory)
     t:<o>:<key>           objs[o][[rows]]                               -> a copy of rows
     s:<o>:<key>:<lit>     objs[o][key] = literal                        (in place)
+    a:<o>:<lit>           x = objs[o]; x += Delta(literal, ref_pos=x)   -> the object `x` is bound to afterwards (a new
+                          array in midgard: `__iadd__` returns `self + other`; for the model a `n:` with the sum)
 
 keys: `i2` (int), `s0-2` (slice), `a` (`:`), `e1.5` (row, column), `l0.2` (list of rows).
 
@@ -59,12 +61,24 @@ class Family:
     def gen_rows(self, rng, system, rows):
         els = np.array([self.gen_elements(rng) for _ in range(rows)], dtype=float)
         if system == "trs":
-            # (a (1, 6) Kepler array converts to a (6,) state: `np.squeeze` in kepler2trs)
+            # (until /repo 60f7c07 a (1, 6) Kepler array converted to a (6,) state: `np.squeeze` in kepler2trs)
             els = np.array(np.asarray(self.factory(els, "kepler").trs, dtype=float), copy=True).reshape(-1, 6)
         return els
 
     def gen_elem(self, rng, system, col, old):
         return self.gen_elements(rng)[col] if system == "kepler" else float(old) * (1 + 1e-4 * rng.choice([-1, 1]))
+
+    def delta(self, arr, system, obj):
+        """a delta that can be added to `obj` with `+=` (None: this system has none)"""
+        if system != "trs":
+            return None
+        from midgard.data.position import PosVelDelta
+
+        return PosVelDelta(np.array(arr, dtype=float), "trs", ref_pos=obj)
+
+    def gen_delta(self, rng, shape):
+        d = np.array([[rng.uniform(-100, 100) for _ in range(3)] + [rng.uniform(-40, 40) for _ in range(3)] for _ in range(max(1, shape[0] if len(shape) == 2 else 1))])
+        return d[0] if len(shape) == 1 else d
 
 
 class PositionFamily(Family):
@@ -85,6 +99,17 @@ class PositionFamily(Family):
 
     def gen_elem(self, rng, system, col, old):
         return self._llh(rng)[col] if system == "llh" else float(old) * (1 + 1e-4 * rng.choice([-1, 1]))
+
+    def delta(self, arr, system, obj):
+        if system != "trs":
+            return None
+        from midgard.data.position import PositionDelta
+
+        return PositionDelta(np.array(arr, dtype=float), "trs", ref_pos=obj)
+
+    def gen_delta(self, rng, shape):
+        d = np.array([[rng.uniform(-100, 100) for _ in range(3)] for _ in range(max(1, shape[0] if len(shape) == 2 else 1))])
+        return d[0] if len(shape) == 1 else d
 
 
 class PositionDeltaFamily(Family):
@@ -117,6 +142,9 @@ class PositionDeltaFamily(Family):
 
     def gen_elem(self, rng, system, col, old):
         return rng.uniform(-100, 100)
+
+    def delta(self, arr, system, obj):
+        return None
 
 
 
@@ -166,6 +194,7 @@ class Hist:
         self.source = []      # id of the object this one was converted from (None for new/view/take)
         self.block = []       # id of the memory block (shadow side)
         self.ops = []
+        self.model_ops = []   # what the model is asked to do for each operation (differs for `a:`)
         self.lits = {}
         self.nblocks = 0
         self.last_write = {}  # block -> step of the last write
@@ -194,6 +223,7 @@ class Hist:
     # -- operations; each returns the id handed out (or None)
     def apply(self, tok: str):
         self.ops.append(tok)
+        self.model_ops.append(tok)
         p = tok.split(":")
         step = len(self.ops)
         if p[0] == "n":
@@ -224,6 +254,19 @@ class Hist:
             k = key_of(p[2])
             self.nblocks += 1
             return self._add(self.objs[o][k], np.array(self.shadow[o][k], copy=True), self.system[o], None, self.nblocks - 1)
+        if p[0] == "a":
+            lit = self.lits[int(p[2])]
+            total = self.shadow[o] + lit
+            x = self.objs[o]
+            x += self.fam.delta(lit, self.system[o], x)
+            self.model_ops[-1] = f"n:{self.fam.tok[self.system[o]]}:{self.lit(total)}"
+            j = self.index_of(x)
+            if j is None:        # midgard: the name is bound to a new array
+                self.nblocks += 1
+                return self._add(x, np.array(total, copy=True), self.system[o], None, self.nblocks - 1)
+            self.shadow[j][...] = total   # an implementation that updates in place: the contents must follow all the same
+            self.last_write[self.block[j]] = step
+            return j
         if p[0] == "s":
             k = key_of(p[2])
             self.objs[o][k] = self.lits[int(p[3])]
@@ -322,12 +365,31 @@ def gen_new(h: Hist, rng, gen_elements, system=None, shape=None):
     return f"n:{h.fam.tok[system]}:{h.lit(gen_literal(h, rng, system, shape, gen_elements))}"
 
 
-TEMPLATES = ["kept-result:all", "kept-result:row", "kept-result:view", "kept-result:view-of-view", "result-written",
+TEMPLATES = ["iadd", "kept-result:all", "kept-result:row", "kept-result:view", "kept-result:view-of-view", "result-written",
              "result-written:view", "own:view", "chain", "random", "random", "random", "random"]
+
+
+def gen_iadd(h: Hist, rng, o):
+    return f"a:{o}:{h.lit(h.fam.gen_delta(rng, h.shadow[o].shape))}"
 
 
 def next_ops(h: Hist, rng, template, gen_elements):
     """generator of operation tokens; looks at the store built so far"""
+    if template == "iadd":
+        # read a conversion, update with += / through a view, read again on the object the name is bound to now
+        w = h.fam.width
+        yield gen_new(h, rng, gen_elements, "trs", rng.choice([(w,), (1, w), (3, w)]))
+        if rng.random() < 0.8:
+            yield "c:0"
+        if h.fam.delta(np.zeros(h.shadow[0].shape), "trs", h.objs[0]) is None:
+            yield gen_set(h, rng, 0, gen_elements)
+        else:
+            yield gen_iadd(h, rng, 0)
+        yield f"c:{len(h.objs) - 1}"
+        yield "c:0"
+        for _ in range(rng.randint(0, 3)):
+            yield random_op(h, rng, gen_elements)
+        return
     if template.startswith("kept-result") or template.startswith("result-written") or template == "own:view" or template == "chain":
         sysm = rng.choice([h.fam.a, h.fam.b])
         w = h.fam.width
@@ -387,6 +449,8 @@ def random_op(h: Hist, rng, gen_elements):
     x = rng.random()
     if x < 0.03:
         return f"o:{o}"
+    if x < 0.08 and h.system[o] == "trs" and h.fam.delta(np.zeros(h.shadow[o].shape), "trs", h.objs[o]) is not None:
+        return gen_iadd(h, rng, o)
     if x < 0.40:
         return f"c:{o}"
     if x < 0.72:
@@ -540,7 +604,7 @@ def model_history(ctx, h: Hist, rets, snaps, case, GM):
     """the Lean store executes the same operations"""
     drv = ctx.driver
     fam = h.fam
-    ans = drv.ask1("c07 hist " + " ".join(h.ops))
+    ans = drv.ask1("c07 hist " + " ".join(h.model_ops))
     if ans is None or ans.startswith("?") or "|" not in ans:
         gdisagree(ctx, f"{fam.name} cache/view store: history rejected by the model", case(), ans, rets)
         return
